@@ -2267,8 +2267,11 @@ class Normalizer(object):
 
     def run(self):
         for name, mod in self.modules.items():
+            sigs = self._signatures(mod.tree)
             for q, fn, cls in self.functions(mod.tree, name):
                 if self.wanted(q):
+                    if self.light is None or q not in self.light:
+                        self._positional(fn, sigs)
                     self._nested_first(fn)
         if self.inventory is not None:
             for _ in range(3):
@@ -2276,6 +2279,32 @@ class Normalizer(object):
                     break
         for name, mod in self.modules.items():
             ast.fix_missing_locations(mod.tree)
+
+    def _signatures(self, tree):
+        '''callable name -> parameter names (module-level functions; classes through their __init__)'''
+        out = {}
+        for n in tree.body:
+            if isinstance(n, ast.FunctionDef):
+                a = n.args
+                if not (a.vararg or a.kwarg or a.kwonlyargs):
+                    out[n.name] = [x.arg for x in a.posonlyargs + a.args]
+            elif isinstance(n, ast.ClassDef):
+                for m in n.body:
+                    if isinstance(m, ast.FunctionDef) and m.name == '__init__':
+                        a = m.args
+                        if not (a.vararg or a.kwarg or a.kwonlyargs):
+                            out[n.name] = [x.arg for x in a.posonlyargs + a.args][1:]
+        return out
+
+    def _positional(self, fn, sigs):
+        '''f(a, y=b) -> f(a, b) when y is the next parameter of the (same-module) callee'''
+        local = names_stored(fn) | {x.arg for x in ast.walk(fn.args) if isinstance(x, ast.arg)}
+        for n in ast.walk(fn):
+            if isinstance(n, ast.Call) and isinstance(n.func, ast.Name) and n.func.id in sigs and n.func.id not in local and n.keywords \
+                    and not any(isinstance(x, ast.Starred) for x in n.args) and all(k.arg for k in n.keywords):
+                params = sigs[n.func.id]
+                while n.keywords and len(n.args) < len(params) and n.keywords[0].arg == params[len(n.args)]:
+                    n.args.append(n.keywords.pop(0).value)
 
     def _nested_first(self, fn):
         if self.light is not None:
